@@ -95,8 +95,10 @@ class Judge:
         fam_cls = loader.gen("eolib.protocol._generated.net.packet_family").PacketFamily
         act_cls = loader.gen("eolib.protocol._generated.net.packet_action").PacketAction
         fam = ld.program.node.get("family")
+        act = ld.program.node.get("action")
         try:
-            ok = ld.cls.family() is getattr(fam_cls, fam) and ld.cls.action() is act_cls.Act and obj.family() is getattr(fam_cls, fam)
+            ok = (ld.cls.family() is getattr(fam_cls, fam) and ld.cls.action() is getattr(act_cls, act)
+                  and obj.family() is getattr(fam_cls, fam) and obj.action() is getattr(act_cls, act))
             a = real_serialize(ld.cls, obj, False)
             b = real_serialize(ld.cls, obj, False, via_write=True)
         except Exception as e:  # noqa: BLE001
@@ -105,7 +107,7 @@ class Judge:
         if not ok or a != b:
             ctx.violation(
                 f"packet-identity:{info.ident}",
-                f"{info.host} [{info.ident}]: family()/action()/write() do not match the declaration (family {fam}, action Act): {a} vs {b}",
+                f"{info.host} [{info.ident}]: family()/action()/write() do not match the declaration (family {fam}, action {act}): {a} vs {b}",
                 {"tier": ctx.tier, "index": info.index, "value": _enc(val), "entry": False, "kind": "packet"},
             )
 
